@@ -464,7 +464,15 @@ def check_discovery(ctx: Ctx, rep: Report) -> None:
     disco_cls = ctx.u.cls("puresnmp_plugins.security.usm:DiscoData") if "puresnmp_plugins.security.usm:DiscoData" in ctx.u.classes else None
     built = []
     for node in own_nodes(fn.node):
-        if isinstance(node, ast.Call) and disco_cls is not None and ctx.r.call_resolves_to(fn, node, disco_cls.key):
+        if not isinstance(node, ast.Call) or disco_cls is None:
+            continue
+        direct = ctx.r.call_resolves_to(fn, node, disco_cls.key)
+        via_helper = False
+        if not direct:
+            for callee in ctx.r.callees(fn, node):
+                if isinstance(callee, FuncInfo) and not callee.module.external and callee is not fn:
+                    via_helper = via_helper or any(isinstance(x, ast.Call) and ctx.r.call_resolves_to(callee, x, disco_cls.key) for x in own_nodes(callee.node))
+        if direct or via_helper:
             n = cfg_node_of(cfg, node)
             if n is not None:
                 built.append(n)
